@@ -32,8 +32,17 @@ def c09(tier, seed, mult):
 
 
 def c07(tier, seed, mult):
-    return run_suite("S-TREE-OUT[C07]", seed + 5, _n(tier, 500, 6000, mult), struct=False,
-                     gen_kw={"allow": ("fit", "setmerge", "setthr", "setbf", "reset"), "malformed": 0.0})
+    res = run_suite("S-TREE-OUT[C07]", seed + 5, _n(tier, 500, 6000, mult), struct=False,
+                    gen_kw={"allow": ("fit", "setmerge", "setthr", "setbf", "reset"), "malformed": 0.0})
+    # C07 states "the clustering equals that of the reference procedure": the model with the reference policy IS that
+    # procedure (theorems C07_route ... C07_mask), so a history on which the public observables differ is a failing input
+    if res.disagreement is not None and not res.failures:
+        dis = res.disagreement
+        res.failures.append({"signature": "C07:clustering-differs-from-the-reference-procedure",
+                             "what": f"after operation {dis.get('at')} ({dis.get('what', 'public observables')}): reference {str(dis.get('model'))[:300]} "
+                                     f"/ library {str(dis.get('impl'))[:300]}",
+                             "case": {"hist": dis.get("hist"), "at": dis.get("at")}})
+    return res
 
 
 def c17(tier, seed, mult):
